@@ -2,6 +2,7 @@
 from ..poly import Sym, mk_func
 from ..interp import Interp, Str, Tup
 from ..model import AnalysisError
+from .. import purity
 from . import motion
 from .motion import V, TWO31
 from .c01 import analyse_lt
@@ -70,6 +71,7 @@ def run(ck, prog, tier):
                        '1/2 below 2^52); mpmath rounds correctly']
     ck.trusted += ['python ast module', 'vf.poly normal forms', 'vf.interp',
                    'closed form of the recurrence derived in DESIGN.md C02']
+    purity.check(ck, prog, ['ebb_calc.move_dist_t3', 'ebb_calc.rate_t3'], 'C02-R-pure')
     fn = prog.func('ebb_calc.move_dist_t3')
     if fn.params != ['time', 'rate', 'accel', 'jerk', 'accum']:
         raise AnalysisError('move_dist_t3 signature changed: %s' % fn.params)
